@@ -67,7 +67,14 @@ def generate(tier, seed):
         m = re.match(r"NTICKS (\d+)", ans[i] or "")
         n = min(int(m.group(1)) if m else 0, 25 if tier == "quick" else 80)
         i += 1
-        for k in range(1, n + 1):
+        ks = list(range(1, n + 1))
+        if rng.random() < 0.4: ks.append(-1)          # also: an error raised by a SYMBOL (an unbound variable with a multi-byte name)
+        for k in ks:
+            this_prog = prog
+            if k == -1:
+                sym = rng.choice(["größe", "λλλ", "é", "naïve-var", "日本", "x😀y", "plain-unbound"])
+                this_prog = relayout(rng, "(list %s %s (quote %s))" % (rng.choice(["1", "\"ü\"", "'é"]), sym, sym)) + "\n" + prog
+                k = 0
             lines.append("NEW")
             texts = {}
             if pre and lib:
@@ -80,19 +87,19 @@ def generate(tier, seed):
                 texts.setdefault("<eval_string>", []).append(pre)
             lines.append("FAILAT %d" % k)
             if how == "string":
-                lines.append("ERRFMT " + C.esc(prog)); fname = "<eval_string>"
+                lines.append("ERRFMT " + C.esc(this_prog)); fname = "<eval_string>"
             elif how == "file":
                 fno += 1; name = "c16_%d.lisp" % fno
-                lines.append("ERRFMTFILE %s %s" % (name, C.esc(prog))); fname = os.path.join(SCRATCH, name)
+                lines.append("ERRFMTFILE %s %s" % (name, C.esc(this_prog))); fname = os.path.join(SCRATCH, name)
             else:
                 fno += 1; name = "c16_%d.lisp" % fno; outer = "c16_%d_outer.lisp" % fno
-                lines.append("WRITEFILE %s %s" % (name, C.esc(prog)))
+                lines.append("WRITEFILE %s %s" % (name, C.esc(this_prog)))
                 lines.append("ERRFMTFILE %s %s" % (outer, C.esc("(progn\n  (load \"%s\"))" % os.path.join(SCRATCH, name))))
                 fname = os.path.join(SCRATCH, name)
-            texts.setdefault(fname, []).append(prog)
+            texts.setdefault(fname, []).append(this_prog)
             if how == "nested":
                 texts.setdefault(os.path.join(SCRATCH, outer), []).append("(progn\n  (load \"%s\"))" % os.path.join(SCRATCH, name))
-            meta.append((len(lines) - 1, prog, fname, how, texts))
+            meta.append((len(lines) - 1, this_prog, fname, how, texts))
             lines.append("TICKS")
     return {"lines": lines, "meta": {"entries": meta}, "distribution": {"programs": nprog, "fault_runs": len(meta)}}
 
